@@ -430,13 +430,14 @@ def r18_14(run, model):
                        "locates the bracket instead of requiring the text to end with it (or the lowering hands over the bracketed text only)")
     f = model.fn("parse_derive_targets", DER)
     t = S.norm_ws(run.facts.text(DER, f.body["sp"]))
-    needs_end = re.search(r"strip_suffix\('\]'\)|ends_with\('\]'\)", t) is not None
+    # the text after the attribute's own `]` is a comment and may hold brackets of its own: the bracket is looked for from the front
+    needs_end = re.search(r"strip_suffix\('\]'\)|ends_with\('\]'\)|rsplit_once\('\]'\)|rfind\('\]'\)|rsplit\('\]'\)", t) is not None
     low = model.fn("lower_attributes", "crates/ast/src/lower.rs")
     lt = S.norm_ws(run.facts.text("crates/ast/src/lower.rs", low.body["sp"]))
     whole_text = re.search(r"text:syntax\.text\(\)\.to_string\(\)", lt) is not None
     ok = not (needs_end and whole_text)
     run.ob("R18.14", "parse_derive_targets|a comment after the attribute does not drop the derive", ok, site(DER, f.node["sp"]),
-           f"the targets are read only if the text ends with `]`: {needs_end}; the lowering hands over the node's whole text (trailing trivia included): {whole_text}",
+           f"the closing bracket is taken from the end of the text: {needs_end}; the lowering hands over the node's whole text (trailing trivia included): {whole_text}",
            witness="#[derive(ToString)] // note\nstruct P { a: int32 }: no impl is generated and no diagnostic is given; p.to_string() fails with "
                    "`Method to_string not found`")
 
